@@ -594,6 +594,8 @@ def incremental(ctx: Ctx):
                 if r_ is None:
                     return None
                 lhs, op, rhs = r_
+                if nf.dim_of(nf.strip(lhs)) is not None and nf.dim_of(nf.strip(rhs)) is None:
+                    lhs, rhs, op = rhs, lhs, nf._MIRROR[op]     # num_depot > node  ==  node < num_depot
                 cells = vg.cells_of(lhs)
                 if len(cells) != 1 or not (nf.dim_of(nf.strip(rhs)) is not None and "capacity" in vg.cells_of(rhs, shapes=True)):
                     return None
